@@ -37,11 +37,11 @@ OPTS = ('RFC6531_FOLLOW_RFC20', 'RFC6531_FOLLOW_RFC5322', 'LABELS_ALLOW_UNDERSCO
 
 class Lib:
     """One configuration of the library, built from a snapshot of /repo's working tree."""
-    def __init__(self, snap, rfc20=False, f5322=False, uscore=False, extra=False, san=False, backend='idn2'):
+    def __init__(self, snap, rfc20=False, f5322=False, uscore=False, extra=False, san=False, backend='idn2', via_env=False):
         self.cfg = (rfc20, f5322, uscore, extra, san)
         self.rfc20, self.f5322, self.uscore, self.extra, self.san = self.cfg
         self.backend = backend
-        name = 'b_%d%d%d%d%d' % tuple(int(x) for x in self.cfg) + ('' if backend == 'idn2' else '_' + backend)
+        name = 'b_%d%d%d%d%d' % tuple(int(x) for x in self.cfg) + ('' if backend == 'idn2' else '_' + backend) + ('_env' if via_env else '')
         self.dir = os.path.join(snap.root, name)
         shutil.copytree(snap.src, self.dir, symlinks=True)
         stubs = os.path.join(HARN, 'stubs')
@@ -62,7 +62,13 @@ class Lib:
         elif backend == 'idnkit':
             mk += ['DEFS=-DHAVE_IDNKIT -I' + stubs, 'LIBS=']; self.backend_flags = ['-DHAVE_IDNKIT', '-DIDN2_SKIP_LIBIDN_COMPAT', '-I' + stubs, os.path.join(HARN, 'adapter.c')]
         mk.append('CFLAGS=' + cflags)
-        rc, out = sh(mk, cwd=self.dir, timeout=600)
+        benv = None
+        if via_env:
+            # the README's other way of choosing the options: exported variables; an option that is off is not mentioned at all
+            opts = [a for a in mk if a.startswith(('RFC6531_FOLLOW_RFC20=', 'RFC6531_FOLLOW_RFC5322=', 'LABELS_ALLOW_UNDERSCORE='))]
+            mk = [a for a in mk if a not in opts]
+            benv = dict(os.environ); benv.update(dict(a.split('=', 1) for a in opts if a.endswith('=ON')))
+        rc, out = sh(mk, cwd=self.dir, timeout=600, env=benv)
         if rc != 0 or not os.path.exists(os.path.join(self.dir, 'libeav.a')):
             raise BuildError('library build failed (%s):\n%s' % (name, out[-3000:]))
         self._drv = None
